@@ -36,7 +36,7 @@ pub fn prop() -> Prop {
     .random(
         "adversaries",
         check,
-        |t| if t == Tier::Quick { 24_000 } else { 600_000 },
+        |t| if t == Tier::Quick { 24_000 } else { 160_000 },
         |t| if t == Tier::Quick { 400 } else { 700 },
     )
     .text(check_plain_text)
@@ -501,13 +501,26 @@ pub fn run_all(case: &Case) -> Obs {
     obs
 }
 
-fn panic_sig(entry: &str, msg: &str, loc: &str) -> String {
+fn panic_sig(entry: &str, msg: &str, loc: &str, lossy_tree: bool) -> String {
     // ariadne 0.6.0 write.rs:267 (header of a source group other than the report's own source, in
     // byte-index mode): one root cause whatever the entry point and the text of the line
     if loc.contains("ariadne") && loc.ends_with("write.rs:267") && msg.contains("is not a char boundary") {
         return "C21|panic|diagnostic-rendering|ariadne-secondary-source-header-char-boundary".to_string();
     }
+    // C02's recorded defect (the type parser drops the offending token from the syntax tree) shifts
+    // every later text range of that tree by the dropped bytes; a shifted location can end inside a
+    // multi-byte character, and ariadne then slices the line at that byte. One root cause (C02's)
+    // whatever the entry point: only when the document's tree really is lossy.
+    if lossy_tree && loc.contains("ariadne") && msg.contains("is not a char boundary") {
+        return "C21|panic|diagnostic-rendering|location-shifted-by-dropped-token".to_string();
+    }
     format!("C21|panic|{}|{}", entry, normalise_panic(msg, loc))
+}
+
+/// Does apollo-parser's tree of this text lack part of the text (C02's recorded defect)?
+fn tree_is_lossy(text: &str) -> bool {
+    use crate::apollo::parse::{parse, Entry};
+    crate::runner::catch(|| parse(Entry::Document, text, None, None).root.text().to_string() != text).unwrap_or(false)
 }
 
 pub fn check_case(case: &Case, ctx: &mut Ctx) -> Outcome {
@@ -556,10 +569,11 @@ pub fn check_case(case: &Case, ctx: &mut Ctx) -> Outcome {
     }
     ctx.nontrivial = obs.built_something && (case.chain || obs.diagnostics > 0);
 
+    let lossy = !obs.panics.is_empty() && (tree_is_lossy(&case.full()) || tree_is_lossy(&case.schema) || tree_is_lossy(&case.exec));
     let mut fails: Vec<(String, String)> = obs
         .panics
         .iter()
-        .map(|(entry, msg, loc)| (panic_sig(entry, msg, loc), format!("{} panicked: {} at {}", entry, msg, loc)))
+        .map(|(entry, msg, loc)| (panic_sig(entry, msg, loc, lossy), format!("{} panicked: {} at {}", entry, msg, loc)))
         .collect();
     for (s, d) in &obs.problems {
         fails.push((format!("C21|{}", s), d.clone()));
